@@ -1,6 +1,7 @@
 package worlds
 
 import (
+	"context"
 	"errors"
 	"fmt"
 	"reflect"
@@ -540,7 +541,37 @@ func orderAndCopies(e *Env) {
 	nConnH := 0
 	s.c.HandleFunc(client.CONNECTED, func(c *client.Conn, l *client.Line) { nConnH++ })
 	s.c.HandleFunc(client.DISCONNECTED, func(c *client.Conn, l *client.Line) { discEnter = append(discEnter, e.S.Stamp()) })
-	if err := s.c.Connect(); err != nil {
+	twoConnects := !c15 && early == 0 && g.Pct(12)
+	var secondErr error
+	secondDone := true
+	if twoConnects {
+		// two parts of the application call Connect at nearly the same time while
+		// the dial takes a moment: one of them gets the connection, the other is
+		// refused - there is one connection and one event loop
+		e.S.Count("fault.second-connect-while-the-first-is-dialling")
+		secondDone = false
+		e.DialWait = func(ctx context.Context, n int) error {
+			simrt.Sleep(time.Duration(1+g.S.Choose(5)) * time.Millisecond)
+			return nil
+		}
+		e.S.Spawn("second-connect", func() {
+			simrt.Sleep(time.Duration(g.S.Choose(3)) * time.Millisecond)
+			secondErr = s.c.Connect()
+			secondDone = true
+		})
+	}
+	firstErr := s.c.Connect()
+	if twoConnects {
+		simrt.BlockFor("dispatch", "the second Connect to return", time.Hour, func() bool { return secondDone })
+		e.DialWait = nil
+		e.Check()
+		if (firstErr == nil) == (secondErr == nil) {
+			e.Violation("overlap", "two overlapping Connect calls on one client returned %v and %v: exactly one of them may establish the connection (two event loops would handle lines side by side)", firstErr, secondErr)
+			return
+		}
+		firstErr = nil
+	}
+	if err := firstErr; err != nil {
 		e.Violation("harness-connect", "Connect failed: %v", err)
 		return
 	}
